@@ -109,6 +109,19 @@ func tinyAlphabet() (out []entry) {
 	return out
 }
 
+// mappedAlphabet: an IPv4-mapped IPv6 literal is an IPv6 value (an AAAA entry),
+// next to the plain IPv4 and IPv6 literals it could be confused with.
+func mappedAlphabet() (out []entry) {
+	pats := []string{"a.test", "x.a.test", "*.test", "*.a.test"}
+	ans := []string{"::ffff:1.1.1.1", "1.1.1.1", "::1", "AAAA", "a.test", "y.a.test"}
+	for _, p := range pats {
+		for _, a := range ans {
+			out = append(out, entry{p, a})
+		}
+	}
+	return out
+}
+
 // curated holds the examples of AGHTechDoc (in the names of the alphabet) and
 // the hard cases named in the design.
 func curated() [][]entry {
@@ -482,17 +495,17 @@ type plan struct {
 func hostPlans(tier string) []plan {
 	full, small := alphabet(), smallAlphabet()
 	if tier == "thorough" {
-		return []plan{{full, 1}, {full, 2}, {full, 3}, {full, 4}, {tinyAlphabet(), 5}}
+		return []plan{{full, 1}, {mappedAlphabet(), 1}, {mappedAlphabet(), 2}, {mappedAlphabet(), 3}, {full, 2}, {full, 3}, {full, 4}, {tinyAlphabet(), 5}}
 	}
-	return []plan{{full, 1}, {full, 2}, {full, 3}, {small, 4}}
+	return []plan{{full, 1}, {mappedAlphabet(), 1}, {mappedAlphabet(), 2}, {mappedAlphabet(), 3}, {full, 2}, {full, 3}, {small, 4}}
 }
 
 func wirePlans(tier string) []plan {
 	full, small := alphabet(), smallAlphabet()
 	if tier == "thorough" {
-		return []plan{{full, 1}, {full, 2}, {full, 3}}
+		return []plan{{full, 1}, {mappedAlphabet(), 1}, {mappedAlphabet(), 2}, {full, 2}, {full, 3}}
 	}
-	return []plan{{full, 1}, {full, 2}, {small, 3}}
+	return []plan{{full, 1}, {mappedAlphabet(), 1}, {mappedAlphabet(), 2}, {full, 2}, {small, 3}}
 }
 
 func silence() {
@@ -619,7 +632,7 @@ func main() {
 				"distinct_wire_outcomes":           m.Distinct["wire"],
 				"order_dependent_cname_tie_exempt": m.Counters["order_dependent_cname_tie_exempt"],
 				"order_dependent_same_wildcard_several_values_exempt": m.Counters["order_dependent_same_wildcard_several_values_exempt"],
-				"rule":                             "part 1: every ordered table of <=3 entries over 7 patterns (a.test b.test x.a.test *.test *.a.test *.b.test *.x.a.test) x 11 answers (1.1.1.1 2.2.2.2 ::1 A AAAA a.test b.test x.a.test x.b.test y.a.test c.other) + wildcard-onto-itself = 81 entries, plus size 4 over a 35-entry sub-alphabet (thorough: <=4 over the 81 entries plus size 5 over a 25-entry sub-alphabet); 11 names (incl. xa.test and yx.a.test, which end like a wildcard's base without the label boundary) x A/AAAA/TXT; every permutation is a fresh filtering.New and must agree with the others. part 2: tables of <=2 entries over the 81 entries and of 3 over the 35-entry sub-alphabet (thorough: <=3 over the 81), each in 2 orders, x the same queries, through dnsforward with a mock upstream in 3 modes. non-trivial = distinct resolution path shapes (kind/exactness/shadowing/tie per step and final outcome, per query type) of queries matched by the table",
+				"rule":                             "part 1: every ordered table of <=3 entries over 7 patterns (a.test b.test x.a.test *.test *.a.test *.b.test *.x.a.test) x 11 answers (1.1.1.1 2.2.2.2 ::1 A AAAA a.test b.test x.a.test x.b.test y.a.test c.other) + wildcard-onto-itself = 81 entries, plus size <=3 over a 24-entry sub-alphabet with an IPv4-mapped IPv6 value (::ffff:1.1.1.1, an AAAA value) and size 4 over a 35-entry sub-alphabet (thorough: <=4 over the 81 entries plus size 5 over a 25-entry sub-alphabet); 11 names (incl. xa.test and yx.a.test, which end like a wildcard's base without the label boundary) x A/AAAA/TXT; every permutation is a fresh filtering.New and must agree with the others. part 2: tables of <=2 entries over the 81 entries and of 3 over the 35-entry sub-alphabet (thorough: <=3 over the 81), each in 2 orders, x the same queries, through dnsforward with a mock upstream in 3 modes. non-trivial = distinct resolution path shapes (kind/exactness/shadowing/tie per step and final outcome, per query type) of queries matched by the table",
 			}
 		},
 		Assumptions: []string{
